@@ -661,7 +661,13 @@ func extractMinimalRegions(t *trie.Trie[bit256.Key, peer.ID], path bitstr.Key, s
 		return append(extractMinimalRegions(t.Branch(b), path+bitstr.Key(byte('0'+b)), size, order),
 			extractMinimalRegions(t.Branch(1-b), path+bitstr.Key(byte('1'-b)), size, order)...)
 	}
-	return []Region{{Prefix: path, Peers: t}}
+	// t is the subtrie found at depth len(path) of the peers trie. Return the
+	// region's peers in a trie of their own, rooted at depth 0 like the Keys
+	// trie filled by AssignKeysToRegions: AllocateToKClosest walks both tries in
+	// lockstep, and only compares the right bits if they start at the same depth.
+	peers := trie.New[bit256.Key, peer.ID]()
+	peers.AddMany(AllEntries(t, order)...)
+	return []Region{{Prefix: path, Peers: peers}}
 }
 
 // AssignKeysToRegions assigns the provided keys to the regions based on their
